@@ -44,6 +44,11 @@ func (p *FloatingIPPlugin) Bind(args *schedulerapi.ExtenderBindingArgs) error {
 	if err != nil {
 		return fmt.Errorf("failed to find pod %s: %w", util.Join(args.PodName, args.PodNamespace), err)
 	}
+	if args.PodUID != "" && pod.UID != "" && args.PodUID != pod.UID {
+		// the informer cache still shows an earlier pod with the same name, its uid must not be stored with the ip
+		return fmt.Errorf("pod %s uid in cache is %s, expect %s, cache is not synced", util.Join(args.PodName,
+			args.PodNamespace), pod.UID, args.PodUID)
+	}
 	if !p.hasResourceName(&pod.Spec) {
 		// we will config extender resources which ensures pod which doesn't want floatingip won't be sent to plugin
 		// see https://github.com/kubernetes/kubernetes/pull/60332
